@@ -56,7 +56,8 @@ def apply_unfolders(sid: str, unfolders: List[Callable]) -> List[Sid]:
         done = func(result)
         result = done
 
-    return sorted(set(result))
+    # Sids sort by string only: the type breaks ties, else their order would depend on the string hash seed
+    return sorted(set(result), key=lambda s: (str(s), getattr(s, "type", "")))
 
 
 @cache
